@@ -75,7 +75,7 @@ def main(argv=None):
     common.pin_environment()
     timer = common.Timer()
     mod = importlib.import_module(f"mc.props.{pid}")
-    evidence_path = os.path.join(common.VERIF, "evidence", f"{pid}.json")
+    evidence_path = os.path.join(os.environ.get("VERIF_EVIDENCE_DIR") or os.path.join(common.VERIF, "evidence"), f"{pid}.json")
     try:
         res = mod.run(args.tier, args.seed)
     except Exception:  # harness failure: never an alarm
@@ -100,7 +100,7 @@ def main(argv=None):
     for key, (vs, ent) in matched.items():
         print(f"KNOWN-FINDING: property={pid} key={key} ({len(vs)} case(s)) {ent['what']}")
 
-    rdir = os.path.join(common.VERIF, "replays", pid)
+    rdir = os.path.join(os.environ.get("VERIF_REPLAY_DIR") or os.path.join(common.VERIF, "replays"), pid)
     alarms = 0
     nondet = 0
     for i, (key, (vs, _)) in enumerate(unlisted.items()):
